@@ -42,13 +42,15 @@ pub mod tokio_openssl {
     pub struct SslStream<IO> { _p: core::marker::PhantomData<IO> }
     impl<IO> SslStream<IO> {
         pub uninterp spec fn io(&self) -> IO;
+        /// the most recent poll_accept returned Pending (the socket holds the task's waker)
+        pub uninterp spec fn hs_parked(&self) -> bool;
         #[verifier::external_body]
         pub fn new(ssl: Ssl, io: IO) -> (r: Result<SslStream<IO>, ErrorStack>)
             ensures r matches Ok(s) && s.io() == io,
         { unimplemented!() }
         #[verifier::external_body]
         pub fn poll_accept(&mut self, cx: &mut Context<'_>) -> (r: Poll<Result<(), Error>>)
-            ensures final(self).io() == old(self).io(),
+            ensures final(self).io() == old(self).io(), final(self).hs_parked() == (r is Pending),
         { unimplemented!() }
     }
 }
@@ -130,6 +132,8 @@ impl<IO> AcceptFut<IO> {
         now_spec() >= old(self).timeout.deadline() ==> r is Ready,   // [C18] never later than the timeout
         r matches Poll::Ready(Err(TlsError::Timeout)) ==> now_spec() >= old(self).timeout.deadline(),   // [C18] never early
         r matches Poll::Ready(Err(e)) ==> e is Timeout || e is Tls,
+        // Pending only with BOTH wake-ups arranged: the handshake's socket and the handshake timer   [C18]
+        r is Pending ==> final(self).timeout.parked() && (final(self).stream matches Some(st) && st.hs_parked()),   // [C18]
         // a working stream is exactly the stream the handshake ran on, and the future is then spent
         r matches Poll::Ready(Ok(t)) ==> Some(t.0) == old(self).stream || final(self).stream is None,
 //@end
